@@ -98,6 +98,14 @@ def _run_job(job):
     E, prop, known = _W['E'], _W['prop'], _W['known']
     e = E.registry[ei]
     out = dict(order=(ei, case), contract=e['cls'].name, target=e['target'], obls=[], errors=[], known_lines=[], files=[])
+    executed = set()
+    repo_root = repo_path()
+
+    def _trace(fn, loc):
+        f = fn.globs.get('__file__') if isinstance(fn.globs, dict) else None
+        if f and f.startswith(repo_root) and not isinstance(fn.node, __import__('ast').Lambda):
+            executed.add(os.path.relpath(f, repo_root) + '::' + fn.qualname)
+    E.I.trace = _trace
     try:
         obls = E.run_contract(e, prop, only_case=case)
     except Exception as ex:
@@ -163,6 +171,7 @@ def _run_job(job):
         if c is not None:
             used |= set(c.ghost.get('lemmas_used', ()))
     out['lemmas_used'] = sorted(used)
+    out['executed'] = sorted(executed)
     out['files'] = sorted(E.I.files_used)
     out['pyx'] = dict(E.I.pyx_reports)
     out['job_s'] = time.time() - _t0
@@ -228,12 +237,14 @@ def main():
     files_used = set(E.I.files_used)
     pyx_reports = {}
     lemmas_used = set()
+    executed_fns = set()
     for r in results:
         errors.extend(r['errors'])
         known_lines.extend(r['known_lines'])
         files_used.update(r['files'])
         pyx_reports.update(r.get('pyx') or {})
         lemmas_used.update(r.get('lemmas_used') or [])
+        executed_fns.update(r.get('executed') or [])
         key = (r['contract'], r['target'])
         contracts_run[key] = contracts_run.get(key, 0) + len(r['obls'])
         for d in r['obls']:
@@ -331,6 +342,7 @@ def main():
             'source_sha256_16': files,
             'pyx_extraction': pyx_info,
             'lemmas_applied_modularly': sorted(lemmas_used),
+            'repo_functions_executed_symbolically': sorted(executed_fns),
             'vacuity': {'contracts_with_feasible_path': len(contracts_run) - sum(1 for o in errs if o.name == 'cover')},
         },
         'assumptions': info.get('assumptions', []),
